@@ -136,6 +136,7 @@ func genDL(purpose string) func(t *rapid.T) dlCase {
 		c.WinMin = rapid.SampledFrom([]int64{1_000_000, 2_000_000, 5_000_000, 20_000_000}).Draw(t, "winmin")
 		c.WinMax = c.WinMin + rapid.SampledFrom([]int64{0, 0, 1_000_000, 15_000_000}).Draw(t, "winmaxd")
 		c.Threshold = rapid.SampledFrom([]int64{1, 1, 1000, 100_000, 2_000_000, 0, -5}).Draw(t, "threshold") // <= 0: no RTT filter at all
+		dynCase := purpose == "c02" && rapid.IntRange(0, 4).Draw(t, "dynCase") == 0                          // C02: some cases remove / add partitions while tokens are out (totals only are judged then)
 		ev := rapid.Custom(func(t *rapid.T) dlEv {
 			switch k := rapid.IntRange(0, 21).Draw(t, "k"); {
 			case k >= 20:
@@ -146,7 +147,7 @@ func genDL(purpose string) func(t *rapid.T) dlCase {
 				return dlEv{K: "acq", Key: rapid.SampledFrom([]string{"a", "a", "b", "zz", "c"}).Draw(t, "key"), Dead: rapid.IntRange(0, 7).Draw(t, "dead") == 0}
 			case k < 16:
 				return dlEv{K: "done", Idx: rapid.IntRange(0, 1000).Draw(t, "idx"), Outcome: rapid.SampledFrom([]int{0, 0, 0, 0, 1, 2}).Draw(t, "outcome")}
-			case k >= 17 && k < 20 && purpose == "c05" && (c.Strategy == "lookup" || c.Strategy == "predicate") && rapid.IntRange(0, 1).Draw(t, "dyn") == 0:
+			case k >= 17 && k < 20 && (purpose == "c05" || (purpose == "c02" && dynCase)) && (c.Strategy == "lookup" || c.Strategy == "predicate") && rapid.IntRange(0, 1).Draw(t, "dyn") == 0:
 				// partitions come and go while the limiter runs (an update may find none registered)
 				return dlEv{K: rapid.SampledFrom([]string{"prmall", "prm", "padd", "padd"}).Draw(t, "dynk"), Key: rapid.SampledFrom(dlBins).Draw(t, "dynkey")}
 			default:
@@ -601,7 +602,7 @@ func runDLInBubble(c dlCase, prop string) (out kit.Outcome) {
 			if g := int(b.lim.VerifInFlight()); g != len(held) {
 				return kit.Viol(c.Strategy+":limiter-gauge", "after event %d (%s): the limiter's in-flight gauge is %d, outstanding tokens=%d (windows closed so far: %d)", i, e.K, g, len(held), len(model.want))
 			}
-			if b.lookup != nil || b.pred != nil {
+			if (b.lookup != nil || b.pred != nil) && !dynParts {
 				for k, n := range dlBins {
 					if got := b.binBusy(k); got != perKey[n] {
 						return kit.Viol(c.Strategy+":bin-busy", "after event %d (%s): bin %q busy=%d, outstanding tokens of that bin=%d", i, e.K, n, got, perKey[n])
